@@ -27,7 +27,7 @@ IO_BW = {"read": 1e8, "write": 5e7, "aread": 1e8, "awrite": 5e7}
 
 class Obj(object):
     __slots__ = ("type", "owner", "host", "lb_end", "snd", "rcv", "mbox", "detached", "matched", "ended", "doom", "ambiguous",
-                 "src_host", "dst_host", "handles", "zombie", "start_clk")
+                 "src_host", "dst_host", "handles", "zombie", "start_clk", "off_after_end")
 
     def __init__(self, type_):
         self.type = type_
@@ -45,6 +45,7 @@ class Obj(object):
         self.handles = set()       # (actor, op) of the asynchronous posts referring to it
         self.zombie = False
         self.start_clk = None
+        self.off_after_end = None  # a resource it used that went off after it had completed
 
 
 def same(a, b):
@@ -275,6 +276,8 @@ class Model(object):
                             keep.append(o)
                         self.mbox[name] = keep
         for o in objs:
+            if o.ended and o.type == "comm" and o.doom is None and self.uses(o, res):
+                o.off_after_end = res
             if o.ended or o.doom is not None or not self.uses(o, res):
                 continue
             if o.type == "comm":
@@ -594,35 +597,40 @@ class Model(object):
         return "%s of actor %d op %d on H%d" % (o.type, o.owner[0], o.owner[1], o.host)
 
     def judge_exc(self, a, k, kind, objs, exc, ev, e):
-        fams = set(FAMILY[o.type] for o in objs)
         doomed = [o for o in objs if o.doom is not None or o.ambiguous]
-        if e is not None:
+        explained = [o for o in doomed if FAMILY[o.type] == exc]
+        if e is not None and exc in e["fams"]:
             if not same(ev.clk, e["date"]):
                 self.late(a, k, kind, e, ev)
-            if exc not in e["fams"]:
-                self.report("C10:wrong-exception:%s:%s" % (e["objs"][0].type, exc), "actor %d %s() on %s: expected %s, got %s" % (
-                    a, kind, self.desc(e["objs"][0]), "/".join(sorted(e["fams"])), exc))
             self.checked += 1
             self.count("checked.exception_at_due_date.%s.%s" % (e["objs"][0].type, kind))
             self.trace.append(("exc_due", ev.idx))
             for o in e["objs"]:
                 o.ended = True
             return
-        if not doomed:
-            done = [o for o in objs if o.type == "comm" and o.ended and self.off_resource_of(o) is not None]
-            if done:
-                o = done[0]
-                self.report("C10:completed-comm-reported-failed:%s:%s" % (kind, exc), "%s had completed (its other side was told so) before %s%d went off, "
-                            "yet %s() by actor %d at %.17g throws %s for it" % ((self.desc(o),) + self.off_resource_of(o) + (kind, a, ev.clk, exc)))
-            self.report("C10:spurious-failure:%s:%s" % (kind, exc), "actor %d %s() threw %s at %.17g but no resource used by %s is or was off" % (
-                a, kind, exc, ev.clk, "; ".join(self.desc(o) for o in objs) or "it"))
-        if exc not in set(FAMILY[o.type] for o in doomed):
+        if explained:
+            # the exception of another member of the set that (possibly) failed too
+            if e is not None and not same(ev.clk, e["date"]):
+                self.late(a, k, kind, e, ev)
+            self.count("observed.exception_on_possibly_failed_activity")
+            if kind != "waitany":
+                for o in explained:
+                    o.ended = True
+            return
+        done = [o for o in objs if o.type == "comm" and o.ended and o.doom is None and (o.off_after_end or self.off_resource_of(o))]
+        if done and exc == "NetworkFailure":
+            o = done[0]
+            res = o.off_after_end or self.off_resource_of(o)
+            self.report("C10:completed-comm-reported-failed:%s:%s" % (kind, exc), "%s had completed (its other side was told so) before %s%d went off, "
+                        "yet %s() by actor %d at %.17g throws %s for it" % (self.desc(o), res[0], res[1], kind, a, ev.clk, exc))
+        if e is not None:
+            self.report("C10:wrong-exception:%s:%s" % (e["objs"][0].type, exc), "actor %d %s() on %s: expected %s, got %s" % (
+                a, kind, self.desc(e["objs"][0]), "/".join(sorted(e["fams"])), exc))
+        if doomed:
             self.report("C10:wrong-exception:%s:%s" % (doomed[0].type, exc), "actor %d %s() on %s: expected %s, got %s" % (
                 a, kind, self.desc(doomed[0]), FAMILY[doomed[0].type], exc))
-        self.count("observed.exception_on_possibly_failed_activity")
-        if kind != "waitany":
-            for o in doomed:
-                o.ended = True
+        self.report("C10:spurious-failure:%s:%s" % (kind, exc), "actor %d %s() threw %s at %.17g but no resource used by %s is or was off" % (
+            a, kind, exc, ev.clk, "; ".join(self.desc(o) for o in objs) or "it"))
 
     def tname(self, o):
         return "comm-detached" if (o.type == "comm" and o.detached) else o.type
